@@ -9,6 +9,7 @@ from . import evalrules as er
 from . import c01
 from . import tr
 
+from . import unitrules
 from .common import Guard  # noqa: E402
 
 PROP = 'C11'
@@ -114,6 +115,7 @@ def check(repo, run, tier):
     g(er.who_may_evaluate, repo, run, 'C11.R2')
     g(r3, repo, run)
     g(_r4, repo, run)
+    g(unitrules.eval_namespace_views, repo, run, 'C11.R3')
     g.done()
 
 
@@ -124,6 +126,7 @@ def _r4(repo, run):
 
 def mutants(repo):
     return [
+        Mutant('eval-code-sees-the-raw-tree', lambda r: in_func(r, 'EvalNode.ayns.on_evaluate_impl', "'cfg': ctx.ecfg", "'cfg': ctx.cfg"), ['C11.R3']),
         Mutant('shallow-copy-before-evaluation', lambda r: in_func(r, 'Config.__init__', "pre_evaluate = copy.deepcopy(config_dict)", "pre_evaluate = copy.copy(config_dict)"), ['C11.R1']),
         Mutant('evaluate-the-source-itself', lambda r: in_func(r, 'Config.__init__', "evaluated = eval_ctx.evaluate(pre_evaluate)", "evaluated = eval_ctx.evaluate(config_dict)"), ['C11.R1']),
         Mutant('non-node-gate-removed', lambda r: delete_stmt(r, 'ConfigNode.ayns.on_evaluate', lambda t: t.startswith('assert not isinstance(evaluated, ConfigNode)')), ['C11.R2']),
